@@ -1640,10 +1640,22 @@ impl Gen {
         for _ in 0..n {
             self.stmt(d, &mut body);
         }
+        self.loop_body_return(d, &mut body);
         self.loop_depth -= 1;
         self.pop_scope();
         self.tag("stmt:while".into());
         out.push(Stmt::Expr(Expr::new(Ty::Unit, EK::While(Box::new(cond), Block { stmts: body, tail: None }))));
+    }
+
+    /// Now and then a loop body ends in an unconditional return / accept / reject: the loop
+    /// runs at most once, and what follows the loop runs exactly when the body was never
+    /// entered.
+    fn loop_body_return(&mut self, d: u32, body: &mut Vec<Stmt>) {
+        if self.cfg.early_return && !self.in_const && self.no_div == 0 && self.rng.chance(1, 8) {
+            let r = self.ret_stmt(d.min(1));
+            body.push(Stmt::Expr(r));
+            self.tag("stmt:loop-body-always-returns".into());
+        }
     }
 
     fn for_stmt(&mut self, d: u32, out: &mut Vec<Stmt>) {
@@ -1686,6 +1698,7 @@ impl Gen {
             self.stmt(d, &mut body);
         }
         self.observe(Expr::var(&x, et), 1, &mut body);
+        self.loop_body_return(d, &mut body);
         self.loop_depth -= 1;
         self.pop_scope();
         self.tag("stmt:for".into());
